@@ -6,6 +6,7 @@ import (
 	"fmt"
 	"io"
 	"math/rand"
+	"os"
 	"time"
 
 	"github.com/biogo/hts/bgzf"
@@ -144,10 +145,7 @@ func RunWriter(t *tr.Writer, sc WScenario) ([]byte, *Truth, bool) {
 		ret := tr.M{"op": o.K, "n": n, "err": ErrClass(e, bgzf.ErrClosed)}
 		// HasEOF through two kinds of ReaderAt (bytes.Reader reports a negative offset as an
 		// error, io.SectionReader as (0, io.EOF))
-		sb := sink.Bytes()
-		he1, herr1 := bgzf.HasEOF(bytes.NewReader(sb))
-		he2, herr2 := bgzf.HasEOF(io.NewSectionReader(bytes.NewReader(sb), 0, int64(len(sb))))
-		ret["haseof"] = []bool{he1 && herr1 == nil, he2 && herr2 == nil}
+		ret["haseof"] = hasEOFAll(sink.Bytes())
 		if o.K == "C" {
 			closedOnce = true
 			nlib, frames := LibGoroutinesAbove(Marker+".", libBase)
@@ -201,10 +199,7 @@ func RunBAMWriter(t *tr.Writer, class string, eng BAMEngine, flat []byte, sizes 
 		"script": ops, "scriptId": 0, "hasHdr": false, "hold": []string{}})
 	ret := func(op string, n int, e error, last bool) {
 		m := tr.M{"op": op, "n": n, "err": ErrClass(e, bgzf.ErrClosed)}
-		sb := sink.Bytes()
-		he1, herr1 := bgzf.HasEOF(bytes.NewReader(sb))
-		he2, herr2 := bgzf.HasEOF(io.NewSectionReader(bytes.NewReader(sb), 0, int64(len(sb))))
-		m["haseof"] = []bool{he1 && herr1 == nil, he2 && herr2 == nil}
+		m["haseof"] = hasEOFAll(sink.Bytes())
 		if last {
 			nlib, frames := LibGoroutinesAbove(Marker+".", libBase)
 			m["leak"] = nlib
@@ -264,4 +259,45 @@ func RunBAMWriter(t *tr.Writer, class string, eng BAMEngine, flat []byte, sizes 
 	}
 	t.Ev("end", tr.M{"digest": sink.Digest(), "scriptId": 0, "gunzip": gz, "failed": sink.Failed})
 	return true
+}
+
+// lenSeeker offers ReadAt, Seek and Len but neither Size nor Stat (the third way HasEOF
+// finds the end of its input).
+type lenSeeker struct{ r *bytes.Reader }
+
+func (l lenSeeker) ReadAt(p []byte, off int64) (int, error)   { return l.r.ReadAt(p, off) }
+func (l lenSeeker) Seek(off int64, whence int) (int64, error) { return l.r.Seek(off, whence) }
+func (l lenSeeker) Len() int                                  { return l.r.Len() }
+
+var hasEOFFile *os.File
+
+// hasEOFAll asks HasEOF through every kind of input it distinguishes: Size (bytes.Reader
+// reports a negative offset as an error, io.SectionReader as (0, io.EOF)), Seek+Len on a
+// reader that has been partly read, and Stat (a file).
+func hasEOFAll(sb []byte) []bool {
+	he1, herr1 := bgzf.HasEOF(bytes.NewReader(sb))
+	he2, herr2 := bgzf.HasEOF(io.NewSectionReader(bytes.NewReader(sb), 0, int64(len(sb))))
+	out := []bool{he1 && herr1 == nil, he2 && herr2 == nil}
+	for _, k := range []int{0, 1, len(sb) / 2, len(sb) - 27, len(sb)} {
+		if k < 0 || k > len(sb) {
+			continue
+		}
+		ls := lenSeeker{bytes.NewReader(sb)}
+		ls.r.Seek(int64(k), 0) // the caller has read k bytes
+		he, herr := bgzf.HasEOF(ls)
+		out = append(out, he && herr == nil)
+	}
+	if hasEOFFile == nil {
+		hasEOFFile, _ = os.CreateTemp("", "verif-haseof-")
+		if hasEOFFile != nil {
+			os.Remove(hasEOFFile.Name())
+		}
+	}
+	if f := hasEOFFile; f != nil {
+		f.Truncate(0)
+		f.WriteAt(sb, 0)
+		he, herr := bgzf.HasEOF(f)
+		out = append(out, he && herr == nil)
+	}
+	return out
 }
